@@ -19,4 +19,5 @@ def run(ctx):
     ss.flush_complete(ctx, 'C16')
     ss.private_state(ctx, 'C16')
     ss.clean_only_removes(ctx, 'C16')
+    ss.put_unconditional(ctx, 'C16')
     ss.read_apis_merge_log(ctx, 'C16')
